@@ -79,6 +79,10 @@ func leafFor(adv string, name string) (*certs.Certificate, *certs.Certificate, *
 		clock = time.Now().Add(time.Hour)
 	case "notyet":
 		leaf = p.LeafAt(certKey.Public, time.Now().Add(2*time.Hour), time.Hour, n)
+	case "lapsed":
+		// valid when issued and for two more seconds; RunProbe presents it after it has run out, to a
+		// verifier on the real clock that has verified other certificates before
+		leaf = p.LeafAt(certKey.Public, time.Now(), 2*time.Second, n)
 	case "wrongtype":
 		c, err := certs.IssueIntermediate(p.Root, &certs.Identity{PublicKey: certKey.Public, Names: []certs.Name{n}})
 		if err != nil {
@@ -235,6 +239,24 @@ func RunProbe(sc Scenario) (Result, string) {
 	}
 	defer sv.Close()
 	defer cl.Close()
+	if sc.ClientAdv == "lapsed" {
+		// the verification policy is shared by all handshakes of a server: an honest client is served
+		// while the certificate is still valid, the certificate runs out, then its holder arrives
+		sc0 := sc
+		sc0.ClientAdv, sc0.ClientSkip, sc0.ClientCB, sc0.NoName = "ok", true, "", true
+		cl0 := BuildClient(sc0, 3, kemPub)
+		defer cl0.Close()
+		if cv != nil {
+			cv.AuthKeys.AddKey(cl0.CertKey)
+		}
+		tnet.Pump(sv, cl0, tnet.Addr(3), nil)
+		if _, _, pending := sv.S.VerifTableSizes(); pending > 0 {
+			if h0, err := sv.S.AcceptTimeout(5 * time.Second); err == nil {
+				defer h0.Close()
+			}
+		}
+		time.Sleep(3200 * time.Millisecond)
+	}
 	r := Finish(sv, cl, tnet.Pump(sv, cl, tnet.Addr(1), nil))
 	if sc.ServerAdv == "wrongkey" || (sc.ServerCB == "deny" && cv != nil) {
 		return r, "-"
